@@ -10,7 +10,7 @@ from ..ref import ws as refws
 LEVEL = 'exploration'
 TECHNIQUE = 'online trace monitor (event-grammar automaton + bounded-termination rule) over bounded-exhaustive histories on a virtual clock'
 BUDGET_S = {'quick': 75, 'thorough': 280}
-REQUIRED = {'all': ['oracle.grammar_checked', 'oracle.terminated_runs', 'oracle.connect_phase_runs', 'oracle.reconnect_runs']}
+REQUIRED = {'all': ['oracle.closed_under_selector_silent', 'oracle.grammar_checked', 'oracle.terminated_runs', 'oracle.connect_phase_runs', 'oracle.reconnect_runs']}
 RULE = ('bounded-exhaustive histories: handshake variant x every sequence of <= D server steps from an 18-step '
         'alphabet (data/control/invalid frames, close variants, half frame, silence, EOF, ECONNRESET) x 16 '
         'application policies (send/close at each event kind, at every event, send-then-close) x 3 timer '
@@ -47,6 +47,26 @@ ALPHABET = {
 }
 STEPS = sorted(ALPHABET)
 
+
+def _z(data, style):
+    from ..ref import deflate_peer
+    return deflate_peer.Peer(15, 15, True, True).compress(data, style)
+
+
+# on a connection with permessage-deflate negotiated: compressed messages of every block structure (each compressed
+# on its own, so that any order of them is a conforming stream), and things that are not deflate at all
+Z_ALPHABET = {
+    'ztext': ('raw', F(1, _z(b'hello hello hello', 'sync'), rsv=4)),
+    'zempty': ('raw', F(1, _z(b'', 'sync'), rsv=4)),
+    'zempty-bfinal': ('raw', F(1, _z(b'', 'bfinal'), rsv=4)),
+    'ztext-bfinal': ('raw', F(2, _z(b'final block final block', 'bfinal'), rsv=4)),
+    'zfrag': ('raw', F(1, _z(b'fragmented compressed text', 'sync')[:5], rsv=4, fin=0)),
+    'zgarbage': ('raw', F(2, b'\xff\xff\xff\xff', rsv=4)),
+    'znothing': ('raw', F(1, b'', rsv=4)),
+}
+Z_STEPS = sorted(Z_ALPHABET) + ['text', 'cont', 'ping', 'close', 'eof', 'half']
+ALPHABET.update(Z_ALPHABET)
+
 HS = {
     'ok': {},
     'ok+frame': {},            # no cut between the reply and the first frame
@@ -54,6 +74,8 @@ HS = {
     'wrong-accept': dict(accept='other_key'),
     'half-then-rest': {},      # cut inside the header block
     'oversize': dict(pad_to=17000),
+    'ok-z': dict(extra=[('Sec-WebSocket-Extensions', 'permessage-deflate')]),
+    'ok-z-nct': dict(extra=[('Sec-WebSocket-Extensions', 'permessage-deflate; server_no_context_takeover')]),
 }
 
 SEND = ['send_text', 'x']
@@ -111,13 +133,16 @@ def cases(tier, seed, i, n):
             for d in range(0, depth + 1):
                 if hs in ('200', 'wrong-accept', 'oversize') and d > 1:
                     continue
-                for seq in itertools.product(STEPS, repeat=d):
+                if hs.startswith('ok-z') and d > 2:
+                    continue
+                for seq in itertools.product(Z_STEPS if hs.startswith('ok-z') else STEPS, repeat=d):
                     yield dict(kind='hist', hs=hs, seq=list(seq), seg='perstep')
         yield gen.mark('every sequence of <= %d server steps (18-step alphabet) x 6 handshake variants x 16 policies x 3 timer settings' % depth)
         rnd = random.Random(seed * 8191 + 7)
         for _ in range(3000 if tier == 'quick' else 60000):
             d = rnd.randint(3, 5) if tier == 'quick' else rnd.randint(4, 6)
-            yield dict(kind='hist', hs=rnd.choice(list(HS)), seq=[rnd.choice(STEPS) for _ in range(d)],
+            hs_ = rnd.choice(list(HS))
+            yield dict(kind='hist', hs=hs_, seq=[rnd.choice(Z_STEPS + STEPS if hs_.startswith('ok-z') else STEPS) for _ in range(d)],
                        seg=rnd.choice(('perstep', 'coalesced', 'bytewise')),
                        faults=[[rnd.choice(('sendall', 'recv')), rnd.randint(1, 4), rnd.choice(('reset', 'timeout', 'runtime'))]]
                        if rnd.random() < 0.3 else [])
@@ -196,7 +221,8 @@ def one(case, pn, tn, acc, cw=None):
         w.closed_wait = cw
         case = dict(case, cw=cw)
         acc.count2('oracle', 'closed_under_selector_' + cw)
-    run = H.drive(w, url=url, connect_kwargs=ckw, policy=H.TablePolicy(POLICIES[pn]))
+    wskw = dict(compress=True) if hsname.startswith('ok-z') else None
+    run = H.drive(w, url=url, ws_kwargs=wskw, connect_kwargs=ckw, policy=H.TablePolicy(POLICIES[pn]))
     judge(run, w, acc, dict(case, policy=pn, timer=tn))
     if run.end == 'stop' and (len(case['seq']) + len(pn) + len(tn)) % 3 == 0:
         # the same history once more on the SAME WebSocket object (reconnect): same grammar
